@@ -233,6 +233,92 @@ def run_api_part(ck, replay):
                                              "cases": [lines[i] if " N " in lines[i] else "post replay " + prefix + " " + lines[i].split(" ", 2)[2]]}, concrete=False)
 
 
+def line_samples(rng, n):
+    """byte strings around the 510-byte cut: ASCII fill + multi-byte characters at every alignment, ill-formed sequences
+    (lone continuation bytes, truncated sequences, overlong forms, surrogates, > U+10FFFF), and short strings"""
+    chars = ["\u00fc", "\u20ac", "\U0001f600", "\u0800", "\ud7ff", "\ue000", "\U00010000", "\U0010ffff", "\u007f", "\u0080", "\u07ff"]
+    bad = [b"\x80", b"\xbf", b"\xc0\xaf", b"\xc1\xbf", b"\xc2", b"\xe0\x80\x80", b"\xe0\xa0", b"\xed\xa0\x80", b"\xed\x9f\xbf", b"\xf0\x80\x80\x80",
+           b"\xf0\x90\x80", b"\xf4\x8f\xbf", b"\xf4\x90\x80\x80", b"\xf5\x80\x80\x80", b"\xff", b"\xfe", b"\xe2\x28\xa1", b"\xf0\x9f\x98", b"\xf0\x9f", b"\xf0"]
+    out = [b"", b"a", b"\xc3", b"\xc3\xbc", b"\xf0\x9f\x98\x80", b"\xf0\x9f\x98", b"\x80\x80\x80", b"a" * 510, b"a" * 511]
+    for c in chars:                       # every alignment of the cut inside a character, valid text
+        e = c.encode("utf-8")
+        for pad in range(0, 5):
+            out.append(b"x" * (504 + pad) + e * 4)
+            out.append(b"y" * pad + e * 200)
+    for b in bad:                         # ill-formed text at the cut and in the middle
+        for pad in (0, 1, 2, 3):
+            out.append(b"z" * (507 + pad - len(b)) + b + b"tail")
+            out.append(b"q" * pad + b + b"mid" + b)
+    while len(out) < n:
+        k = rng.random()
+        if k < 0.5:
+            t = "".join(rng.choice(chars + ["a", "b", " "]) for _ in range(rng.randint(1, 400))).encode("utf-8")
+        elif k < 0.8:
+            t = b"".join(rng.choice([c.encode("utf-8") for c in chars] + bad + [b"a", b" :"]) for _ in range(rng.randint(1, 300)))
+        else:
+            t = bytes(rng.randrange(256) for _ in range(rng.randint(1, 600)))
+        out.append(t)
+    return out
+
+
+def run_line_part(ck):
+    """stake 510 / trim_partial_rune / json_delivered of the model against Message.Bytes / send() / encoding/json"""
+    wd = vlib.workdir()
+    inp, outp = os.path.join(wd, "lines.in"), os.path.join(wd, "lines.out")
+    samples = line_samples(ck.rng, 400 if ck.tier == "quick" else 6000)
+    with open(inp, "w") as f:
+        f.write("".join((s.hex() or "-") + "\n" for s in samples))
+    if os.path.exists(outp):
+        os.remove(outp)
+    ov = {os.path.join(vlib.REPO, "internal/ircserver/zz_verif_line_test.go"): os.path.join(vlib.HGO, "ircserver/zz_verif_line_test.go")}
+    rc, out = vlib.go_test("./internal/ircserver/", ov, "^TestVerifLines$", {"VERIF_IN": inp, "VERIF_OUT": outp}, timeout=900)
+    if rc != 0 or not os.path.exists(outp):
+        ck.add_obligation(False, "line driver (Message.Bytes + send + encoding/json) ran")
+        ck.violation("tie-broken:go-driver-lines", {"what": "the line driver did not build/run against the current tree", "output": out[-3000:],
+                                                    "obligation": "correspondence of stake 510 / trim_partial_rune / json_delivered"}, concrete=False)
+        return
+    ck.add_obligation(True, "line driver (Message.Bytes + send + encoding/json) ran")
+    got = [l for l in open(outp).read().split("\n") if l]
+    mout = vlib.run_model("".join("ircline %s\n" % (s.hex() or "-") for s in samples)) if getattr(ck, "model_ok", False) else []
+    unh = lambda h: b"" if h == "-" else bytes.fromhex(h)
+    mism, toolong, pyd = [], [], 0
+    for k, s in enumerate(samples):
+        g = got[k].split(" ") if k < len(got) else []
+        if len(g) != 5:
+            mism.append((k, "driver output malformed"))
+            continue
+        stored, d_full, d_cut, d_stored = (unh(x) for x in g[1:])
+        for name, data, dd in (("uncut", s, d_full), ("cut", s[:510], d_cut), ("stored", stored, d_stored)):
+            if irclib.go_json_delivered(data) != dd:
+                pyd += 1
+                mism.append((k, "python emulation of the JSON encoder differs from encoding/json on the %s line" % name))
+        if mout and (k >= len(mout) or mout[k] != got[k]):
+            mism.append((k, "model: %s / implementation: %s" % ((mout[k] if k < len(mout) else "")[:200], got[k][:200])))
+        try:
+            s.decode("utf-8")
+            valid = True
+        except UnicodeDecodeError:
+            valid = False
+        if valid and len(d_stored) > 510:
+            toolong.append((k, len(stored), len(d_stored)))
+    ck.cov["line_samples"] = len(samples)
+    ck.cov["line_samples_cut_inside_a_character"] = sum(1 for s in samples if len(s) > 510 and irclib.go_json_delivered(s[:510]) != s[:510])
+    ck.cov["evaluations"] = ck.cov.get("evaluations", 0) + len(samples)
+    ck.cov["rule"] = ck.cov.get("rule", "") + (" | line part: byte strings (valid text with 1-4 byte characters at every alignment of the 510-byte cut, "
+                                              "ill-formed sequences, random bytes) rendered by Message.Bytes, stored by send(), JSON-encoded and decoded; "
+                                              "compared with the model (stake 510, trim_partial_rune, json_delivered) and the python emulation used by the monitors")
+    for k, ln, dl in toolong[:1]:
+        ck.violation("c15:len-delivered", {"what": "a line of well-formed text of %d bytes is stored as %d bytes and delivered (after JSON encoding) as %d bytes" % (len(samples[k]), ln, dl),
+                                           "line_hex": samples[k].hex(), "expected": "at most 510 bytes reach the client",
+                                           "how_to_replay": "bin/check C15 (the line part is deterministic)"}, concrete=True)
+    if mism and not toolong:
+        k, why = mism[0]
+        ck.violation("correspondence:lines", {"what": "model and implementation disagree on what is stored / delivered for a rendered line: " + why,
+                                              "line_hex": samples[k].hex(), "mismatches": len(mism),
+                                              "obligation": "correspondence of stake 510 / trim_partial_rune / json_delivered (Irc/Str.v) with Message.Bytes / send / encoding/json"},
+                     concrete=False)
+
+
 def run(ck, replay):
     irc_only = False
     if replay:
@@ -247,3 +333,5 @@ def run(ck, replay):
         ck.proof_obligations()
     if not irc_only:
         run_api_part(ck, replay)
+    if not replay:
+        run_line_part(ck)
